@@ -21,7 +21,6 @@
 """Module for Electrum v2 mnemonic entropy generation."""
 
 # Imports
-import math
 from enum import IntEnum, unique
 from typing import List, Union
 
@@ -113,5 +112,10 @@ class ElectrumV2EntropyGenerator(EntropyGenerator):
         """
         if isinstance(entropy, bytes):
             entropy = BytesUtils.ToInteger(entropy)
-        entropy_bit_len = 0 if entropy <= 0 else math.floor(math.log(entropy, 2))
-        return ElectrumV2EntropyGenerator.IsValidEntropyBitLen(entropy_bit_len)
+        # Index of the most significant bit, computed exactly (float logarithms round up near powers of two)
+        entropy_bit_len = 0 if entropy <= 0 else entropy.bit_length() - 1
+        # A value with its most significant bit at position 132 (or 264) needs 13 (or 25) words
+        for max_bit_len in ElectrumV2EntropyGeneratorConst.ENTROPY_BIT_LEN:
+            if max_bit_len - ElectrumV2MnemonicConst.WORD_BIT_LEN <= entropy_bit_len < max_bit_len:
+                return True
+        return False
